@@ -855,6 +855,64 @@ def rule_k16(repo):
     return res
 
 
+def rule_k17(repo):
+    """A primitive rule reads the two sides of a premise by position (`x, y = th.prop.args`).  Positions mean the sides of
+    an equation (the parts of an implication, the body of a quantifier) only for a proposition with that head: every
+    path to such a read passes a head test *of the proposition that is read* - `th.prop.is_equals()`, or a predicate of
+    Thm that is defined as that test of `self.prop`.  A predicate that looks at something else (the conclusion behind
+    the implications) lets A --> (s = t) through, whose two arguments are A and s = t."""
+    res = RuleResult('C01.K17', 'a primitive rule takes the proposition of a premise apart only after a head test of that proposition', floor=9)
+    rows = primitive_table(repo)
+    thm = repo.cls(THM, 'Thm')
+    POS = ('args', 'arg', 'arg1', 'fun', 'lhs', 'rhs', 'body')
+
+    def about_prop(meth):
+        """the predicate of Thm is a test of self.prop: every attribute path from self in what it returns starts with self.prop"""
+        f = thm.methods.get(meth)
+        if f is None:
+            return None
+        rets = [r for r in ast.walk(f.node) if isinstance(r, ast.Return) and r.value is not None]
+        if not rets:
+            return None
+        for r in rets:
+            for a in ast.walk(r.value):
+                if isinstance(a, ast.Attribute) and is_name(a.value, 'self') and a.attr != 'prop':
+                    return False
+        return True
+    for name, (fn, tag, _row) in sorted(rows.items()):
+        func = repo.func(THM, fn)
+        cfg = cfg_of(func.node)
+        for p in theorem_params(func):
+            sites = [n for n in cfg.nodes if n.ast is not None and n.kind in ('stmt', 'test', 'return') and any(
+                isinstance(a, ast.Attribute) and a.attr in POS and path_of(a.value) == p + '.prop'
+                for h in cfg.headers(n) for a in ast.walk(h))]
+            if not sites:
+                continue
+            wrong = []
+
+            def head(e, pol, p=p):
+                if not pol or not isinstance(e, ast.Call) or not isinstance(e.func, ast.Attribute) or not e.func.attr.startswith('is_') or e.args:
+                    return False
+                if path_of(e.func.value) == p + '.prop':
+                    return True
+                if is_name(e.func.value, p):
+                    ok = about_prop(e.func.attr)
+                    if ok is False and e.func.attr not in wrong:
+                        wrong.append(e.func.attr)
+                    return bool(ok)
+                return False
+            edges = cfg.establishing_edges(head)
+            bad = [s_ for s_ in sites if cfg.path_avoiding(s_, skip_edges=edges) is not None]
+            res.add('%s :: %s :: head-test-of(%s.prop)' % (THM, fn, p), not bad,
+                    'every positional read of %s.prop follows a head test of it' % p if not bad else
+                    'line %d reads `%s.prop` by position without a head test of that proposition%s: an implication A --> (s = t) has two arguments '
+                    'as well, and symmetric / equal_elim then give |- A from nothing' % (
+                        bad[0].lineno, p, ('; the test `%s.%s()` is about something else than self.prop' % (p, wrong[0])) if wrong else ''),
+                    '%s:%d' % (THM, bad[0].lineno if bad else sites[0].lineno))
+    return res
+
+
 def rules(repo):
     return [rule_k1(repo), rule_k2(repo), rule_k3(repo), rule_k4(repo), rule_k5(repo), rule_k6(repo),
-            rule_k8(repo), rule_k9(repo), rule_k10(repo), rule_k11(repo), rule_k12(repo), rule_k13(repo), rule_k14(repo), rule_k15(repo), rule_k16(repo)]
+            rule_k8(repo), rule_k9(repo), rule_k10(repo), rule_k11(repo), rule_k12(repo), rule_k13(repo), rule_k14(repo), rule_k15(repo), rule_k16(repo),
+            rule_k17(repo)]
